@@ -14,7 +14,7 @@ inline void decode_domain_params(verif::Tape &t, const std::string &variant, std
   pm = crab::domains::crab_domain_params();
   auto has = [&](const char *s) { return variant.find(s) != std::string::npos; };
   auto flip = [&](const char *name, bool dflt) {
-    bool v = t.tail_flag() ? !dflt : dflt;
+    bool v = (t.tail_u8() & 3) == 3 ? !dflt : dflt; // a quarter of the time the non-default value
     pm.set_param(name, v ? "true" : "false");
     if (v != dflt)
       log << " " << name << "=" << v;
@@ -37,7 +37,10 @@ inline void decode_domain_params(verif::Tape &t, const std::string &variant, std
     flip("array_adaptive.smash_at_nonzero_offset", true);
     static const char *cells[] = {"64", "0", "1", "2", "4", "512"};
     static const char *sizes[] = {"64", "0", "1", "2", "8", "512"};
-    unsigned c = t.tail_pick(6), z = t.tail_pick(6);
+    // (index 0 = the default; it is taken half of the time)
+    unsigned c = t.tail_pick(12), z = t.tail_pick(12);
+    c = c >= 6 ? 0 : c;
+    z = z >= 6 ? 0 : z;
     pm.set_param("array_adaptive.max_smashable_cells", cells[c]);
     pm.set_param("array_adaptive.max_array_size", sizes[z]);
     log << " aa.max_smashable_cells=" << cells[c] << " aa.max_array_size=" << sizes[z];
